@@ -36,6 +36,12 @@ def plan_tags(pr, plan):
             if n >= 2:
                 tags.add("bool-fluent-assigned-twice-in-one-action" if f.type.is_bool_type()
                          else "nonbool-fluent-assigned-twice-in-one-action")
+    for a, ps in plan:
+        for e in a.effects:
+            if (e.is_increase() or e.is_decrease()) and e.is_conditional() and any(x.is_or() or x.is_implies() or x.is_iff() or
+                                                                                   (x.is_not() and (x.arg(0).is_and() or x.arg(0).is_implies()))
+                                                                                   for x in _subexps(e.condition)):
+                tags.add("increase-or-decrease-under-a-disjunctive-effect-condition")
     try:
         st = seqsem.initial_state(pr)
         for a, ps in plan:
